@@ -219,9 +219,13 @@ func (vm *VM) Run(program *Program, env interface{}) (out interface{}, err error
 			a := vm.pop()
 			min := toInt(a)
 			max := toInt(b)
-			size := max - min + 1
-			if size < 0 {
-				size = 0
+			size := 0
+			if max >= min {
+				size = max - min + 1
+				if size < 1 {
+					// max-min+1 does not fit an int: more elements than any budget allows
+					panic("memory budget exceeded")
+				}
 			}
 			if vm.memory+size >= vm.limit {
 				panic("memory budget exceeded")
